@@ -335,7 +335,7 @@ def run_end_to_end(ctx, prop):
         if ctx.out_of_time():
             break
         nq = rng.choice([2, 2, 3])
-        paulis = ["".join(rng.choice("IXYZ") for _ in range(nq)) for _ in range(rng.randint(1, 4))]
+        paulis = sorted({"".join(rng.choice("IXYZ") for _ in range(nq)) for _ in range(rng.randint(1, 4))})  # distinct: equal strings could cancel to the zero operator
         coeffs = [rng.randint(-4, 4) / 2 or 1.0 for _ in paulis]  # a zero operator is rejected by the primitives ("Empty observable")
         op = SparsePauliOp(paulis, coeffs)
         aux_kind = rng.choice(["none", "list", "dict"])
